@@ -42,9 +42,12 @@ def check_zero_width(rep):
         "Array(None, n_bytes(0))": lambda: C.Array(None, C.n_bytes(0)), "Array(None, Struct(Array(0, DINT)))": lambda: C.Array(None, C.Struct(C.Array(0, C.DINT)("z"))),
         "Struct(a:USINT, rest:Array(None, Array(0, SINT)))": lambda: C.Struct(C.USINT("a"), C.Array(None, C.Array(0, C.SINT))("rest")),
         "Array(None, WORD[0])": lambda: C.Array(None, C.Array(0, C.WORD)),
+        # elements that take everything: the first one swallows the buffer, every later one is zero-width
+        "Array(None, Array(None, DINT))": lambda: C.Array(None, C.Array(None, C.DINT)), "Array(None, Struct(vals:Array(None, UINT)))": lambda: C.Array(None, C.Struct(C.Array(None, C.UINT)("vals"))),
+        "Array(None, n_bytes(-1))": lambda: C.Array(None, C.n_bytes(-1)), "Array(None, Struct(a:USINT, rest:n_bytes(-1)))": lambda: C.Array(None, C.Struct(C.USINT("a"), C.n_bytes(-1, "rest"))),
     }
     for name, mk in types.items():
-        for buf in (b"", b"\x00", b"\x01\x02\x03", bytes(64)):
+        for buf in (b"", b"\x00", b"\x01\x02\x03", bytes(64), bytes(range(8))):
             try:
                 T = mk()
                 st = TS.CountingIO(buf, budget=4096)
